@@ -337,7 +337,7 @@ def check_C06(tier, seed):
     # ... the code's behaviour (a repeated sequenceId is stored again) does not: recorded finding, any other counterexample is new
     plain_tlc('C06', v, acc, 'C06-as-implemented-strict', 'MCFm', c([2], Depth=5), invariants=['NeedTwoDistinct'], expect_violation='NeedTwoDistinct')
     # Binding B: recorded random histories of the real instance validated against TraceInstance.tla
-    run_inst_traces('C06', v, acc, ['snap.fml', 'pst', 'ppi'], tier, seed, variants=('A', 'M'))
+    run_inst_traces('C06', v, acc, ['snap.fml', 'pst', 'ppi'], tier, seed, variants=('A', 'M', 'K'))
     return finish('C06', tier, seed, 'model_checking', v, acc, t0, EDGE_RULE,
                   COMMON_ASSUME + ['the announce interval equals the BMCA interval (ages advance by one per BMCA run)',
                                    'arrival patterns: per epoch and master any mix of next / duplicate / stale / skipped sequence ids, ids straddling 65535->0'],
@@ -621,7 +621,7 @@ def check_C12(tier, seed):
     for item in hs.get('violations', []):
         v.add({'kind': 'predicate', 'key': 'C12/hostsim' + ('-orphan-recovered' if item.get('known') else ''), 'detail': item['detail'], 'replay': item['replay']})
     # Binding B: recorded random histories of the real instance validated against TraceInstance.tla
-    run_inst_traces('C12', v, acc, ['out.T', 'pend', 'out.len', 'snap.rm'], tier, seed, variants=('A', 'D', 'S'))
+    run_inst_traces('C12', v, acc, ['out.T', 'pend', 'out.len', 'snap.rm'], tier, seed, variants=('A', 'D', 'S', 'K'))
     return finish('C12', tier, seed, 'model_checking', v, acc, t0,
                   EDGE_RULE + '; plus virtual-time continuations of random real histories with (a) silence and (b) a steady better master',
                   COMMON_ASSUME + ['the host arms exactly the timers the returned actions request and a timer fires only while armed (statime-linux main.rs)',
@@ -1269,6 +1269,7 @@ INST_TRACE_VARIANTS = {
     'M': {'PCfg': ('<-', 'TI_PCfg_A'), 'PTrace': False},     # as A, Announces from fourteen distinct sources (the list holds eight)
     'P': {'PCfg': ('<-', 'TI_PCfg_A'), 'PTrace': False, 'OwnP': ('<-', 'TI_OwnP_P')},   # as A, own priority1 and priority2 differ
     'S': {'PCfg': ('<-', 'TI_PCfg_A'), 'PTrace': False, 'SO0': True},   # as A, the instance is slave-only from creation
+    'K': {'PCfg': ('<-', 'TI_PCfg_K'), 'PTrace': False},     # port 2: announce interval 2 s (foreign masters age half as fast), sync 0.5 s, delay request 4 s
     'F': {'PCfg': ('<-', 'TI_PCfg_A'), 'PTrace': True, 'Fwd': True},   # boundary clock: path trace and the real TlvForwarder between the ports
 }
 INST_TRACE_INVARIANTS = ['OneSlave', 'MasterOnlyNeverSlave', 'ParentQualified']
